@@ -449,12 +449,16 @@ def check(ctx, run):
     try:
         for g, lister in (("isListingTestGroupNames", "listTestGroupNames"), ("isListingTestGroupAndCaseNames", "listTestGroupAndCaseNames"), ("isListingTestLocations", "listTestLocations")):
             r, events = runner_fold(prog, [(0, 0), (0, 0)], {g: 1, "isReversing": 1, "isShuffling": 1})
-            kinds = [e[0] for e in events if e[0] != "new-result"]
-            ok = kinds == [lister] and r == 0
-            run.ob("R2", "runner folded: %s lists with %s, runs nothing, returns 0" % (g, lister), rt.site, ok, witness={"events": kinds, "returns": r})
+            kinds = [e[0] for e in events if e[0] not in ("new-result", "setGroupFilters", "setNameFilters")]
+            ok = kinds == ["initialize", lister] and r == 0
+            run.ob("R2", "runner folded: %s applies the parsed configuration (filters) first, then lists with %s, runs nothing, returns 0" % (g, lister), rt.site, ok, witness={"events": kinds, "returns": r},
+                   what="" if ok else "the runner does %s: the listing does not see the filters of the command line (or something is run)" % kinds)
         for rev, sh, nrep in itertools.product((0, 1), (0, 1), (1, 3)):
             r, events = runner_fold(prog, [(0, 0)] * nrep, {"isReversing": rev, "isShuffling": sh}, seed=4711)
-            kinds = [e for e in events if e[0] != "new-result"]
+            kinds = [e for e in events if e[0] not in ("new-result", "setGroupFilters", "setNameFilters")]
+            if kinds[:1] != [("initialize",)]:
+                run.ob("R2", "runner folded [reverse=%d shuffle=%d repetitions=%d]: the parsed configuration is applied before anything else" % (rev, sh, nrep), rt.site, False, witness=[list(e) for e in kinds])
+            kinds = [e for e in kinds if e != ("initialize",)]
             want = ([("reverseTests",)] if rev else []) + ([("shuffleTests", 4711)] if sh else []) + [("runAllTests",)]
             want = want[:1 if rev else 0] + (want[1 if rev else 0:]) * nrep
             ok = kinds == want
